@@ -175,9 +175,42 @@ def rule_s3(F):
     return r
 
 
+def rule_s5(F):
+    """Values that scripts can park in shared storage (script constants live in ModuleData, which is `unsafe impl Sync` and reachable
+    from every clone of every handle on every thread; list elements sit behind a shared Arc) must themselves be Send + Sync: the
+    `Value` trait demands it of the boundary representation and the `Val<T>` wrapper of the user's type. These bounds are what
+    makes the reviewed entry `ModuleData._roto_constants` of S1 sound."""
+    r = RuleResult("C12.S5", "every script-visible value type is Send + Sync: Value::Transformed and Val<T> carry the bounds", floor=4)
+    tr = [t for t in F.traits() if t["path"] == "value::Value"]
+    if not tr:
+        r.missing("trait value::Value")
+        return r
+    ab = {a["name"]: a["bounds"] for a in tr[0].get("assoc_bounds", [])}
+    if "Transformed" not in ab:
+        r.missing("bounds of Value::Transformed (exporter)")
+        return r
+    for need in ("std::marker::Send", "std::marker::Sync"):
+        ok = any(need in x for x in ab["Transformed"])
+        r.inst("Value::Transformed: %s" % hir.last(need), {"bounds": ab["Transformed"], "ok": ok})
+        if not ok:
+            r.bad("value::Value", "Transformed: " + hir.last(need), relfile(tr[0]["file"]), tr[0]["line"],
+                  "the boundary representation of a value is no longer required to be %s, but script constants of that type are stored in ModuleData (unsafe impl Sync) and cloned from any thread that calls a function using them" % hir.last(need))
+    vi = [i for i in F.impls() if i.get("trait") == "value::Value" and i["self_ty"].startswith("value::val::Val<")]
+    if not vi:
+        r.missing("impl Value for Val<T>")
+        return r
+    for need in ("T: std::marker::Send", "T: std::marker::Sync"):
+        ok = need in vi[0]["preds"]
+        r.inst("Val<T>: %s" % need, {"ok": ok})
+        if not ok:
+            r.bad("impl Value for Val<T>", need, relfile(vi[0]["file"]), vi[0]["line"],
+                  "a registered type no longer has to be %s to be wrapped in Val<T>: a `const` of that type in a script is shared by all threads that call into the package (e.g. a type with a Cell field loses updates)" % need.split("::")[-1])
+    return r
+
+
 def rules(ctx):
     F = ctx["F"]
-    return [rule_s1(F), rule_s3(F)]
+    return [rule_s1(F), rule_s3(F), rule_s5(F)]
 
 
 def thorough_rules(ctx):
